@@ -14,6 +14,10 @@ CLAIMED = {
          "Exploration by runtime monitoring: grammar-directed valid programs (all productions, numeral/string zoo, 5.4 operators, attribs, goto) rendered with random trivia and line endings, their single-token mutants and ~110 curated sentinel chunks are analysed by the real server; presence of a type-1 diagnostic is compared with the verdict of an independent recursive-descent recogniser written from the reference manual. Programs that only break a compile-time rule outside the grammar are don't-care.",
          "Trusts R-lex/R-parse (written from the manual; generator output and sentinels cross-check it on every run) and the type prefix in diagnostic messages. No Lua interpreter exists in the sandbox to validate the reference recogniser.",
          "DESIGN.md 3/C03"),
+ "C05": ("online monitor: textDocument/definition answers of the real server vs an independent reference binder (R-bind) at both ends of every variable occurrence",
+         "Exploration by runtime monitoring: generated 2-4 file workspaces (nesting, shadowing, upvalues, all loop forms, repeat-until, local functions, methods, cross-file globals) are loaded into the real server and go-to-definition is asked at both ends of every variable-name occurrence; each answer is compared with the binding computed by an independent implementation of Lua's scoping rules. Known position-based-resolver defects are listed as findings by syntactic trigger class; anything else is a violation.",
+         "Trusts R-parse/R-bind; programs use conventional formatting and plain ASCII (column bookkeeping is C04's), no function literals inside assignment targets (not explored). Built-in names are don't-care.",
+         "DESIGN.md 3/C05"),
 }
 
 PENDING_REASON = "check not built yet in this revision of /verif (work in progress; see DESIGN.md section 3 for the planned monitor)"
